@@ -82,12 +82,14 @@ func checkC07(e *Env) {
 			}
 		}
 		if r.Err != nil {
-			e.Violate(&Violation{What: fmt.Sprintf("NewMnemonic(%d, %d) with the default source failed: %s", op.N, op.L, errText(r.Err)), Ops: []plan.Op{*op}, Observed: r})
+			obs.Inc("default_source_calls_that_failed(unobservable)")
 			return nil
 		}
-		ent, st, _ := e.Model.Dec(strings.Fields(out), int(op.L))
-		if st != ref.OK || len(strings.Fields(out)) != int(op.N) {
-			e.Violate(&Violation{What: fmt.Sprintf("NewMnemonic(%d, %s) with the default source returned something that is not a valid %d-word mnemonic (%s): %s", op.N, ref.Names[op.L], op.N, st, preview(out)), Ops: []plan.Op{*op}, Observed: r})
+		// this property is about WHERE the entropy comes from: the sentence is decoded without
+		// looking at its checksum (a wrong checksum or word count is C01/C02/C06's business)
+		ent, decodable := e.Model.DecodeLoose(strings.Fields(out), int(op.L))
+		if !decodable {
+			obs.Inc("sentences_that_cannot_be_decoded(unobservable)")
 			return nil
 		}
 		if wrapper {
@@ -414,7 +416,7 @@ func checkC07(e *Env) {
 	}
 	if e.Violations() == 0 {
 		if len(entropies) < 1000 {
-			fatalInconclusive("C07: only %d default sentences observed", len(entropies))
+			fatalInconclusive("C07: only %d default-source sentences could be decoded and observed (%v)", len(entropies), obs.Map())
 		}
 		if dupes > 0 {
 			e.Violate(&Violation{What: fmt.Sprintf("%d default-source mnemonics repeat an entropy already produced in this run (within or across fresh processes): the source is not the OS CSPRNG", dupes), Detail: "duplicate entropies"})
